@@ -9,7 +9,7 @@ from pbt.simprop import sim_execute
 PROPERTY = "C01"
 LEVEL = "exploration"
 RULE = (
-    "Hypothesis WorldSpecs (1-3 pools x 1-3 workers, multi-type and two-instance resources, DAG workloads, "
+    "Hypothesis WorldSpecs (1-3 pools x 1-3 workers, multi-type and two-instance resources, a quarter with an 'any'-id first instance, DAG workloads, "
     "all release policies, EDF/FIFO/LSF and the MILP planners with their flags) biased to contention "
     "(strategy demand close to worker capacity); every Worker.place_task/remove_task/load_profile/evict_profile "
     "on a live worker is replayed on a shadow ledger. Non-trivial = some worker held >= 2 tasks at once or a "
